@@ -52,7 +52,7 @@ var replyOps = []string{"GetStats", "GetAvailable", "DropPeer", "GetPeer", "GetP
 var fireOps = []string{"NewPeer", "AddKnown", "BadPeer", "Have", "Announce", "RequestNoWait", "WriterClose"}
 var otherOps = []string{"Kill", "KillCtx", "ReaderRead", "PeerGetStatus", "PeerGetPex", "PeerGetStats",
 	"PeerGetBitmap", "PeerGetHave"}
-var stops = []string{"live", "before", "inqueue-goaway", "inqueue-cancel", "answering", "full-goaway"}
+var stops = []string{"live", "before", "inqueue-goaway", "inqueue-cancel", "answering", "full-goaway", "full-complete"}
 
 func allOps() []string {
 	var o []string
@@ -89,6 +89,7 @@ type env struct {
 	gor0     int
 	mem0     int64
 	serial   int
+	name     string
 	peerList []*peer.Peer
 }
 
@@ -96,12 +97,28 @@ var serial int
 
 func bstr(s string) string { return fmt.Sprintf("%d:%s", len(s), s) }
 
+// piece length of the torrents being generated (geometry): 16 KiB is the smallest legal one
+var curPlen = 32768
+
+func geomPlen(g string) int {
+	switch g {
+	case "p16k":
+		return 16384
+	case "p256k":
+		return 262144
+	}
+	return 32768
+}
+
 func metainfo(n int) []byte {
-	const plen = 32768
+	plen := curPlen
 	const npieces = 4
 	var pieces bytes.Buffer
 	for i := 0; i < npieces; i++ {
 		h := sha1.Sum([]byte(fmt.Sprintf("piece %d of %d", i, n)))
+		if i == 0 {
+			h = sha1.Sum(make([]byte, plen)) // piece 0 verifies when filled with zeros
+		}
 		pieces.Write(h[:])
 	}
 	info := "d6:lengthi" + strconv.Itoa(plen*npieces-100) + "e4:name" + bstr(fmt.Sprintf("c17-%d", n)) +
@@ -172,8 +189,13 @@ func setup(pv string, readers int) (*env, string) {
 	e.t = t
 	// data in memory: half of piece 0, all but one chunk of piece 3
 	data := make([]byte, 16384)
-	t.Pieces.AddData(0, 0, data, 1)
-	t.Pieces.AddData(2, 16384, data, 1)
+	e.name = fmt.Sprintf("c17-%d", serial)
+	if curPlen > 16384 {
+		t.Pieces.AddData(0, 0, data, 1)
+		t.Pieces.AddData(2, 16384, data, 1)
+	} else {
+		t.Pieces.AddData(2, 0, data, 1)
+	}
 	for i := 0; i < len(pv); i++ {
 		r := e.newRemote(pv[i] == '2')
 		e.remotes = append(e.remotes, r)
@@ -226,7 +248,7 @@ func setup(pv string, readers int) (*env, string) {
 		return e, "setup: GetPeers does not return (event loop stuck after adding peers) " + stacks()
 	}
 	for i := 0; i < readers; i++ {
-		rd := t.NewReader(context.Background(), int64(32768*(1+i%2)), 1000)
+		rd := t.NewReader(context.Background(), int64(curPlen*(1+i%2)), 1000)
 		ch := make(chan error, 1)
 		e.readers = append(e.readers, ch)
 		go func() {
@@ -316,7 +338,7 @@ func (e *env) invoke(op string, readerCtx context.Context) string {
 		w.Close()
 		return "ret"
 	case "ReaderRead":
-		rd := t.NewReader(readerCtx, 32768, 1000)
+		rd := t.NewReader(readerCtx, int64(curPlen), 1000)
 		_, err = rd.Read(make([]byte, 10))
 		if err == nil {
 			err = errors.New("read returned data that was never downloaded")
@@ -374,6 +396,7 @@ func pushBacklog(t *tor.Torrent, b int) {
 type caseSpec struct {
 	op, stop, pv     string
 	readers, backlog int
+	geom             string
 }
 
 func (cs caseSpec) String() string {
@@ -381,7 +404,11 @@ func (cs caseSpec) String() string {
 	if pv == "" {
 		pv = "-"
 	}
-	return fmt.Sprintf("op=%s stop=%s peers=%d pv=%s readers=%d backlog=%d", cs.op, cs.stop, len(cs.pv), pv, cs.readers, cs.backlog)
+	g := cs.geom
+	if g == "" {
+		g = "p32k"
+	}
+	return fmt.Sprintf("op=%s stop=%s peers=%d pv=%s readers=%d backlog=%d geom=%s", cs.op, cs.stop, len(cs.pv), pv, cs.readers, cs.backlog, g)
 }
 
 func parseCase(line string) (caseSpec, bool) {
@@ -400,6 +427,8 @@ func parseCase(line string) (caseSpec, bool) {
 			cs.op = kv[1]
 		case "stop":
 			cs.stop = kv[1]
+		case "geom":
+			cs.geom = kv[1]
 		case "pv":
 			if kv[1] != "-" {
 				cs.pv = kv[1]
@@ -434,6 +463,8 @@ func runCase(c *vhlib.Ctx, cs caseSpec) {
 		(cs.stop != "live" && cs.stop != "before")) {
 		return
 	}
+	curPlen = geomPlen(cs.geom)
+	defer func() { curPlen = 32768 }()
 	e, serr := setup(cs.pv, cs.readers)
 	if serr != "" {
 		line := "call " + cs.String() + " got=setup-failed"
@@ -446,6 +477,7 @@ func runCase(c *vhlib.Ctx, cs caseSpec) {
 		return
 	}
 	t := e.t
+	listedVia(t, []string{e.name, t.Name}) // every lookup path is used while the torrent is alive
 	if cs.op == "NewPeer" {
 		e.opconn = e.newRemote(false)
 	}
@@ -585,6 +617,41 @@ func runCase(c *vhlib.Ctx, cs caseSpec) {
 		} else {
 			got = wait()
 		}
+	case "full-complete":
+		// pieces complete while the queue is full and callers are parked on it: the loop is
+		// blocked; a TorData{Complete} for a piece with the right hash and one for a piece
+		// with a wrong hash head the queue, the rest of the 512 slots is filled; a caller
+		// and the call under test park on the full queue; then the loop is released and
+		// must work everything off (it must never wait for room in its own queue)
+		if !block() {
+			got = "hang"
+			break
+		}
+		zeros := make([]byte, 16384)
+		for idx := uint32(0); idx < 2; idx++ {
+			for off := 0; off < curPlen; off += 16384 {
+				t.Pieces.AddData(idx, uint32(off), zeros, 1)
+			}
+			t.Event <- peer.TorData{Peer: nil, Index: idx, Begin: 0, Length: uint32(curPlen), Complete: true}
+		}
+		pushBacklog(t, cs.backlog)
+	fill2:
+		for i := 0; ; i++ {
+			select {
+			case t.Event <- peer.TorBadPeer{Peer: 800000 + uint32(i), Bad: false}:
+			default:
+				break fill2
+			}
+		}
+		go t.Have(3, false) // a caller parked on the full queue
+		time.Sleep(time.Millisecond)
+		call()
+		time.Sleep(2 * time.Millisecond)
+		if cs.op == "ReaderRead" {
+			go func() { time.Sleep(40 * time.Millisecond); readerCancel() }()
+		}
+		release()
+		got = wait()
 	case "full-goaway":
 		// delete the torrent while its queue is full and its peers hold undeliverable
 		// events: the loop is blocked, a TorGoAway heads the queue, the rest of the 512
@@ -624,7 +691,7 @@ func runCase(c *vhlib.Ctx, cs caseSpec) {
 	case strings.HasPrefix(got, "panic"):
 		c.Violate("panic:"+cs.op+":"+cs.stop, line, c.Case())
 	case got == "ok" || got == "ret" || got == "dead":
-		if got == "dead" && (cs.stop == "live" || cs.stop == "answering") && cs.op != "Kill" {
+		if got == "dead" && (cs.stop == "live" || cs.stop == "answering" || cs.stop == "full-complete") && cs.op != "Kill" {
 			c.Violate("dead-while-alive:"+cs.op+":"+cs.stop, "torrent-is-dead from a running torrent: "+line, c.Case())
 		}
 	case got == "ctx" && (cs.op == "KillCtx" || cs.op == "ReaderRead"):
@@ -652,7 +719,8 @@ func runCase(c *vhlib.Ctx, cs caseSpec) {
 	case <-time.After(watchdog):
 	}
 	// immediately after Deleted is closed: Done closed, unlisted, memory released
-	listed := tor.Get(t.Hash) != nil
+	via := listedVia(t, []string{e.name, t.Name})
+	listed := len(via) > 0
 	doneClosed := false
 	select {
 	case <-t.Done:
@@ -723,7 +791,14 @@ func runCase(c *vhlib.Ctx, cs caseSpec) {
 		c.Violate("deletion-stuck:"+ctxs, "Deleted was not closed within the watchdog", c.Case())
 	}
 	if listed {
-		c.Violate("still-listed:"+ctxs, "tor.Get(hash) != nil after Deleted was closed", c.Case())
+		if tor.Get(t.Hash) != nil {
+			c.Violate("still-listed:"+ctxs, "tor.Get(hash) != nil after Deleted was closed", c.Case())
+		}
+		for _, api := range via {
+			if api != "Get" {
+				c.Violate("listed-after-delete:"+api, "after the deletion the torrent is still found through "+api, c.Case())
+			}
+		}
 	}
 	if !doneClosed {
 		c.Violate("done-open:"+ctxs, "Done not closed after Deleted was closed", c.Case())
@@ -1007,6 +1082,150 @@ func runConnCase(c *vhlib.Ctx, branch string) {
 	}
 }
 
+// listedVia: the lookup paths through which the torrent can still be found, probing every
+// name it has ever had
+func listedVia(t *tor.Torrent, names []string) []string {
+	var via []string
+	if tor.Get(t.Hash) == t {
+		via = append(via, "Get")
+	}
+	seen := map[string]bool{}
+	for _, n := range names {
+		if n == "" || seen[n] {
+			continue
+		}
+		seen[n] = true
+		if tor.GetByName(n) == t {
+			via = append(via, "GetByName")
+			break
+		}
+	}
+	found := false
+	tor.Range(func(h hash.Hash, x *tor.Torrent) bool {
+		if x == t {
+			found = true
+		}
+		return true
+	})
+	if found {
+		via = append(via, "Range")
+	}
+	for _, all := range []bool{true, false} {
+		for _, hp := range tor.VerifInfoHashes(all) {
+			if hp.First.Equal(t.Hash) {
+				via = append(via, fmt.Sprintf("InfoHashes(%v)", all))
+			}
+		}
+	}
+	return via
+}
+
+// runListCase: a torrent that changes its name during its life (a magnet link whose dn
+// differs from the name in the metadata, which arrives through the real TorMetaData path) is
+// looked up through every API under every name before the deletion (so that any derived index
+// is populated) and must be found through none of them afterwards.
+func runListCase(c *vhlib.Ctx, kind string, how string) {
+	if enough(c) {
+		return
+	}
+	c.NewCase()
+	serial++
+	infoName := fmt.Sprintf("c17-list-%d", serial)
+	name8 := ""
+	if kind == "magnet-rename-utf8" || kind == "plain-utf8" {
+		name8 = infoName + "-utf8"
+	}
+	plen := 32768
+	var pieces bytes.Buffer
+	for i := 0; i < 2; i++ {
+		h := sha1.Sum([]byte(fmt.Sprintf("piece %d of %s", i, infoName)))
+		pieces.Write(h[:])
+	}
+	info := "d6:lengthi" + strconv.Itoa(plen*2) + "e4:name" + bstr(infoName)
+	if name8 != "" {
+		info += "10:name.utf-8" + bstr(name8)
+	}
+	info += "12:piece lengthi" + strconv.Itoa(plen) + "e6:pieces" + strconv.Itoa(pieces.Len()) + ":" + pieces.String() + "e"
+	hsh := sha1.Sum([]byte(info))
+	dn := ""
+	var t *tor.Torrent
+	var err error
+	switch kind {
+	case "plain", "plain-utf8":
+		t, err = tor.ReadTorrent("", bytes.NewReader([]byte("d4:info"+info+"e")))
+	case "magnet-same":
+		dn = infoName
+		t, err = tor.New("", hash.Hash(hsh[:]), dn, nil, 0, nil, nil)
+	default: // magnet-rename, magnet-rename-utf8
+		dn = "dn of " + infoName
+		t, err = tor.New("", hash.Hash(hsh[:]), dn, nil, 0, nil, nil)
+	}
+	emit := func(listed string) {
+		c.Emit(fmt.Sprintf("listing kind=%s how=%s listed=%s", kind, how, listed), "accept")
+	}
+	if err != nil {
+		emit("setup-failed")
+		c.Violate("setup:listing:"+kind, err.Error(), c.Case())
+		return
+	}
+	t.Log.SetOutput(io.Discard)
+	ctx, cancel := context.WithCancel(context.Background())
+	defer cancel()
+	if _, err := tor.AddTorrent(ctx, t); err != nil {
+		emit("setup-failed")
+		c.Violate("setup:listing:"+kind, err.Error(), c.Case())
+		return
+	}
+	names := []string{dn, t.Name}
+	before := listedVia(t, names) // populates whatever caches there are
+	// a running peer delivers the metadata
+	a, b := net.Pipe()
+	go io.Copy(io.Discard, b)
+	pid := sha1.Sum([]byte("peer of " + infoName))
+	addr := netip.AddrPortFrom(netip.AddrFrom4([4]byte{10, 4, byte(serial), 1}), 6881)
+	t.NewPeer("", a, addr, false, protocol.HandshakeResult{Hash: t.Hash, Id: hash.Hash(pid[:])}, nil)
+	ps, _ := t.GetPeers()
+	if !t.InfoComplete() && len(ps) > 0 {
+		t.Event <- peer.TorPeerExtended{Peer: ps[0], MetadataSize: uint32(len(info))}
+		t.Event <- peer.TorMetaData{Peer: ps[0], Size: uint32(len(info)), Index: 0, Data: []byte(info)}
+		t.GetStats() // barrier
+	}
+	complete := t.InfoComplete()
+	names = append(names, t.Name, infoName, name8)
+	mid := listedVia(t, names)
+	// deletion
+	if how == "cancel" {
+		cancel()
+	} else {
+		kerr := make(chan error, 1)
+		go func() { kerr <- t.Kill(context.Background()) }()
+		select {
+		case <-kerr:
+		case <-time.After(watchdog):
+		}
+	}
+	select {
+	case <-t.Deleted:
+	case <-time.After(watchdog):
+		c.Violate("deletion-stuck:listing:"+kind, "Deleted was not closed", c.Case())
+	}
+	after := listedVia(t, names)
+	b.Close()
+	a.Close()
+	listed := "-"
+	if len(after) > 0 {
+		listed = strings.Join(after, ",")
+	}
+	emit(listed)
+	c.Count("listing/"+kind+"/"+how, fmt.Sprintf("names=%q complete=%v", names, complete), true)
+	if len(before) < 3 || len(mid) < 3 || !complete {
+		c.Note(fmt.Sprintf("listing %s: before=%v mid=%v complete=%v", kind, before, mid, complete))
+	}
+	for _, api := range after {
+		c.Violate("listed-after-delete:"+api, fmt.Sprintf("after the deletion (Deleted closed) the torrent is still found through %s (names it has had: %q)", api, names), c.Case())
+	}
+}
+
 func kindPv(pv string) string {
 	if strings.Contains(pv, "2") {
 		return "remote-closed-early"
@@ -1074,6 +1293,17 @@ func main() {
 		for _, l := range c.ReplayLines() {
 			if cs, ok := parseCase(l); ok {
 				runCase(c, cs)
+			} else if strings.HasPrefix(l, "listing ") {
+				kind, how := "", "kill"
+				for _, w := range strings.Fields(l) {
+					if strings.HasPrefix(w, "kind=") {
+						kind = strings.TrimPrefix(w, "kind=")
+					}
+					if strings.HasPrefix(w, "how=") {
+						how = strings.TrimPrefix(w, "how=")
+					}
+				}
+				runListCase(c, kind, how)
 			} else if strings.HasPrefix(l, "connlife ") {
 				for _, w := range strings.Fields(l) {
 					if strings.HasPrefix(w, "branch=") {
@@ -1092,8 +1322,19 @@ func main() {
 	for _, op := range allOps() {
 		for _, stop := range stops {
 			for i, pv := range pvs {
-				runCase(c, caseSpec{op: op, stop: stop, pv: pv, readers: i, backlog: 0})
+				geom := "p32k"
+				if stop == "full-complete" || stop == "full-goaway" {
+					// the smallest legal piece (one chunk) and a large one
+					geom = []string{"p16k", "p256k"}[i]
+				}
+				runCase(c, caseSpec{op: op, stop: stop, pv: pv, readers: i, backlog: 0, geom: geom})
 			}
+		}
+	}
+	// every lookup path, every name the torrent has had, before and after the deletion
+	for _, kind := range []string{"plain", "plain-utf8", "magnet-same", "magnet-rename", "magnet-rename-utf8"} {
+		for _, how := range []string{"kill", "cancel"} {
+			runListCase(c, kind, how)
 		}
 	}
 	// the life of every connection handed to the torrent, per hand-over circumstance
@@ -1116,7 +1357,8 @@ func main() {
 	variants := []string{"", "0", "1", "2", "12", "21", "012", "221", "111", "202"}
 	for i := 0; i < n; i++ {
 		cs := caseSpec{op: ops[c.R.Intn(len(ops))], stop: stops[c.R.Intn(len(stops))],
-			pv: variants[c.R.Intn(len(variants))], readers: c.R.Intn(3), backlog: c.R.PickInt(0, 0, 1, 3, 17)}
+			pv: variants[c.R.Intn(len(variants))], readers: c.R.Intn(3), backlog: c.R.PickInt(0, 0, 1, 3, 17),
+			geom: []string{"p32k", "p16k", "p256k"}[c.R.Intn(3)]}
 		runCase(c, cs)
 	}
 	c.Close()
